@@ -321,6 +321,10 @@ class QueryWorld:
                         return FALSE
                     raise AbstractRaise("KeyError", node, detail="presence test on a pair without adjacency entry")
                 return Const(r)
+            if name == "__presence_test":
+                # the predicate is only known through the valuation: a call the hook above does not recognise must not fall
+                # through to an interpretation of its body on opaque timelines
+                raise Unsupported(node, "presence test called as %s(%s%s)" % (name, ", ".join(map(repr, args)), "".join(", %s=.." % k for k in kwargs)))
             if name == "nbunch_iter":
                 nb = args[0] if args else kwargs.get("nbunch", NONE)
                 return self._nbunch_iter(ip, nb, node)
